@@ -63,6 +63,10 @@ pub fn read_graphml_string(string: &str, specs: GraphSpecs) -> Result<Graph<Stri
     loop {
         match reader.read_event_into(&mut buf) {
             Ok(Event::Empty(ref e)) => match e.name().as_ref() {
+                b"graph" => {
+                    // an empty graph still declares its directedness
+                    directed = get_graph_directedness(e)?;
+                }
                 b"node" => {
                     let result = add_node(&mut nodes, e);
                     if let Err(value) = result {
@@ -85,23 +89,7 @@ pub fn read_graphml_string(string: &str, specs: GraphSpecs) -> Result<Graph<Stri
             Ok(Event::Start(ref e)) => {
                 match e.name().as_ref() {
                     b"graph" => {
-                        let attrs = get_attributes_as_hashmap(e)?;
-                        match attrs.get("edgedefault") {
-                            None => {
-                                return Err(get_read_error("the <graph> element does not have an \"edgedefault\" attribute"));
-                            }
-                            Some(value) => match value.as_str() {
-                                "directed" => {
-                                    directed = true;
-                                }
-                                "undirected" => {
-                                    directed = false;
-                                }
-                                _ => {
-                                    return Err(get_read_error("the <graph> element's \"edgedefault\" attribute does not have a valid value; it should be one of \"directed\" or \"undirected\""));
-                                }
-                            },
-                        }
+                        directed = get_graph_directedness(e)?;
                     }
                     b"node" => {
                         last_element_name = "node".to_string();
@@ -315,6 +303,19 @@ fn get_attributes_as_hashmap(event: &BytesStart) -> Result<HashMap<String, Strin
             Ok((key, value))
         })
         .collect()
+}
+
+/// Returns `true` if a `<graph>` element declares directed edges, `false` if undirected.
+fn get_graph_directedness(e: &BytesStart) -> Result<bool, Error> {
+    let attrs = get_attributes_as_hashmap(e)?;
+    match attrs.get("edgedefault").map(|s| s.as_str()) {
+        None => Err(get_read_error(
+            "the <graph> element does not have an \"edgedefault\" attribute",
+        )),
+        Some("directed") => Ok(true),
+        Some("undirected") => Ok(false),
+        Some(_) => Err(get_read_error("the <graph> element's \"edgedefault\" attribute does not have a valid value; it should be one of \"directed\" or \"undirected\"")),
+    }
 }
 
 /// Returns the `id` of a `<key>` element that declares the edge weight attribute, if it is one.
